@@ -12,9 +12,10 @@ Definition ds_provenance_ok (E : env) (s : name) (pds ds : list rr) : Prop :=
   exists dm, e_ds E s false = LMsg dm /\ m_ad dm = true /\ ds = extract (m_ans dm) (Some s) T_DS.
 
 Definition answer_ad_sound_statement : Prop :=
-  forall E qname qtype resp pds zone m,
-    dname_target resp = None -> m_ad resp = false ->
-    validate_answer E qname qtype false resp pds zone = Accept m -> m_ad m = true ->
+  forall E qname qtype resp0 pds zone m,
+    let resp := bailiwick zone resp0 in
+    dname_target resp = None -> m_ad resp0 = false ->
+    validate_answer E qname qtype false resp0 pds zone = Accept m -> m_ad m = true ->
     forall s ds, In s (find_signers (e_nrank E) (m_ans resp) qname true) ->
       find_ds E (Some s) qname pds false = Ok ds -> verify_dnssec E s resp ds = (true, None) ->
       ds_provenance_ok E s pds ds.
